@@ -232,6 +232,8 @@ class SpecEnv:
             "wf_map": lambda m: True, "keys_of": lambda m: list(m.keys()),
             "ite": lambda c, a, b: a if c else b, "allocated": lambda o: True,
             "str_is_int": _str_is_int, "str_int": lambda s: int(s), "with_field": _with_field, "let": lambda v, fn: fn(v),
+            "bridged_results_len": lambda n, i: sum(len(b.results) for b in list(n._bridged_nodes)[:i]),
+            "filtered_len": lambda lst, flt, i: sum(1 for r in list(lst)[:i] if flt in r["name"]),
             "__snap": self.snapshot, "__unsnap": getattr(self, "unsnap", lambda v: v),
         }
         for cname in ("TestNode", "TestWorker", "TestSwarm", "TestObject", "NetObject", "VMObject", "ImageObject",
